@@ -1,0 +1,91 @@
+//go:build verif
+// +build verif
+
+// Contracts for package service/flv, read by /verif's govc (contract-based deductive verification).
+// This file contains comments only; it is compiled only under the build tag "verif" and adds no code.
+
+package flv
+
+//@ import "net/http"
+//@ import "time"
+//@ import "runtime/debug"
+//@ import "github.com/cnotch/xlog"
+//@ import "github.com/cnotch/ipchub/media"
+//@ import "github.com/cnotch/ipchub/stats"
+//@ import "github.com/cnotch/ipchub/network/websocket"
+//@ import fmtflv "github.com/cnotch/ipchub/av/format/flv"
+//@ import "io"
+
+// ---- C03: an FLV consumer is released on every way out, and the connection counter is back to its prior value ----------
+//@ global stats.FlvConns readonly
+//@ extern func (c stats.Conns) Add() (n int64)
+//@   modifies ghostInt(c, "active")
+//@   ensures ghostInt(c, "active") == old(ghostInt(c, "active")) + 1
+//@ extern func (c stats.Conns) Release() (n int64)
+//@   modifies ghostInt(c, "active")
+//@   ensures ghostInt(c, "active") == old(ghostInt(c, "active")) - 1
+//@ extern func xlog.F(key string, value interface{}) (f xlog.Field)
+//@   modifies
+//@ extern func xlog.Fields(fields ...xlog.Field) (o xlog.Option)
+//@   modifies
+//@ extern func xlog.Errorf(format string, args ...interface{}) ()
+//@   modifies
+//@ extern func (l *xlog.Logger) With(opts ...xlog.Option) (r *xlog.Logger)
+//@   modifies
+//@   ensures r != nil
+//@ extern func (l *xlog.Logger) Info(msg string, fields ...xlog.Field) ()
+//@   modifies
+//@ extern func (l *xlog.Logger) Error(msg string, fields ...xlog.Field) ()
+//@   modifies
+//@ extern func (l *xlog.Logger) Errorf(format string, args ...interface{}) ()
+//@   modifies
+//@ extern func debug.Stack() (b []byte)
+//@   modifies
+//@ extern func http.Error(w http.ResponseWriter, error string, code int) ()
+//@   modifies misc(w)
+//@ extern func (w http.ResponseWriter) Header() (h http.Header)
+//@   modifies
+//@ extern func (h http.Header) Set(key string, value string) ()
+//@   modifies misc(h)
+//@ extern func media.GetOrCreate(path string) (st *media.Stream)
+//@   modifies ghostAll("misc")
+//@ extern func (s *media.Stream) FlvTypeFlags() (b byte)
+//@   modifies
+// attaching / detaching a consumer (verified in package media): ghost count of consumers this handler has attached
+//@ extern func (s *media.Stream) StartConsume(consumer media.Consumer, packetType media.PacketType, extra string) (cid media.CID)
+//@   panics
+//@   requires s != nil
+//@   modifies ghostInt(s, "attached"), ghostAll("misc")
+//@   ensures ghostInt(s, "attached") == old(ghostInt(s, "attached")) + 1
+//@ extern func (s *media.Stream) StopConsume(cid media.CID) ()
+//@   requires s != nil
+//@   modifies ghostInt(s, "stops"), ghostAll("misc")
+//@   ensures ghostInt(s, "stops") == old(ghostInt(s, "stops")) + 1
+//@ extern func fmtflv.NewWriter(w io.Writer, typeFlags byte) (fw *fmtflv.Writer, err error)
+//@   panics
+//@   modifies ghostAll("misc")
+//@ extern func (c websocket.Conn) Close() (err error)
+//@   modifies ghostInt(c, "closes")
+//@   ensures ghostInt(c, "closes") == old(ghostInt(c, "closes")) + 1
+//@ extern func (c websocket.Conn) SetReadDeadline(t time.Time) (err error)
+//@   modifies
+//@ extern func (c websocket.Conn) Read(b []byte) (n int, err error)
+//@   panics
+//@   modifies ghostAll("misc"), anyFld((*wsFlvConsumer)(nil).closed)
+
+// whatever happens after the stream was found - header write fails, attach panics, client leaves, stream ends - the
+// handler stops the consumer it may have attached exactly once and leaves the FLV connection counter at its prior value
+//@ func ConsumeByHTTP(logger *xlog.Logger, path string, addr string, w http.ResponseWriter) ()
+//@   recovers
+//@   requires logger != nil && w != nil && stats.FlvConns != nil
+//@   modifies all()
+//@   ensures ghostInt(stats.FlvConns, "active") == old(ghostInt(stats.FlvConns, "active"))
+//@ func ConsumeByWebsocket(logger *xlog.Logger, path string, addr string, conn websocket.Conn) ()
+//@   recovers
+//@   requires logger != nil && conn != nil && stats.FlvConns != nil
+//@   modifies all()
+//@   local c *wsFlvConsumer
+//@   loop 0: modifies ghostAll("misc"), anyFld((*wsFlvConsumer)(nil).closed)
+//@   loop 0: invariant c != nil && ghostInt(stats.FlvConns, "active") == old(ghostInt(stats.FlvConns, "active")) + 1 && ghostInt(conn, "closes") == old(ghostInt(conn, "closes"))
+//@   ensures ghostInt(stats.FlvConns, "active") == old(ghostInt(stats.FlvConns, "active"))
+//@   ensures ghostInt(conn, "closes") == old(ghostInt(conn, "closes")) + 1
